@@ -76,6 +76,8 @@ inductive Op
   | close (t : Id)
   | exc                             -- the running coroutine is terminated by its context (one level of unwinding)
   | mark                            -- the running coroutine declares a to-be-closed variable
+  | unmark (e : Option Val)         -- the scope of its innermost to-be-closed variable ends (normally: e = none;
+                                    -- by an error caught further out: e = the error): the variable is closed with e
   deriving DecidableEq, Repr, Inhabited
 
 def tbcEvents (t : Id) (k : Nat) (e : Option Val) : List Event := List.replicate k (.tbc t e)
@@ -116,6 +118,10 @@ def step (s : State) : Op → State × List Event
   | .mark =>
     let c := s.cur
     ({ s with co := upd s.co c { s.co c with tbc := (s.co c).tbc + 1 } }, [])
+  | .unmark e =>
+    let c := s.cur
+    if (s.co c).tbc = 0 then (s, [])
+    else ({ s with co := upd s.co c { s.co c with tbc := (s.co c).tbc - 1 } }, [.tbc c e])
 
 def run (s : State) : List Op → State × List Event
   | [] => (s, [])
